@@ -2,8 +2,8 @@
   C18 - Every OTLP span becomes exactly one STEF record with all its content.
   Property theorems only (helper lemmas: Stef/Proofs/Otlp*.lean). The model is
   Stef/Otlp/Traces.lean: `tracesToStef sorted t` = the logical value of the record at every
-  `Write()` of go/pdata/traces.OtlpToStefUnsorted{Sorted: sorted}.Convert, `none` when the sorting
-  mode panics in otlptools.CmpVal.
+  `Write()` of go/pdata/traces.OtlpToStefUnsorted{Sorted: sorted}.Convert (total since repo commit
+  679d5d5: otlptools.CmpVal no longer panics).
 -/
 import Stef.Proofs.OtlpTracesSort
 
@@ -16,44 +16,28 @@ open Stef.Otlp
 def expected (sortedAttrs : Bool) (x : ResourceSpans × ScopeSpans × Span) : SpanRecord :=
   expectedRecord x.1 x.2.1 x.2.2 sortedAttrs
 
-/-- One record per span, in both modes, for every batch (no side condition): whenever the converter
-    returns, the number of records written is the number of spans. -/
-theorem one_record_per_span (sorted : Bool) (t : Traces) (recs : List SpanRecord)
-    (h : tracesToStef sorted t = some recs) : recs.length = (flattenSpans t).length := by
+/-- One record per span, in both modes, for every batch (no side condition). -/
+theorem one_record_per_span (sorted : Bool) (t : Traces) :
+    (tracesToStef sorted t).length = (flattenSpans t).length := by
   cases sorted
-  · simp only [tracesToStef] at h
-    simp at h; subst h
-    simp [writeResourceSpans_len, flattenSpans_length]
-  · simp only [tracesToStef] at h
-    simp only [if_true] at h
-    split at h
-    · simp at h
-    · rename_i t' ht
-      simp at h; subst h
-      simp [writeResourceSpans_len, flattenSpans_length, sortTraces_count t t' ht]
+  · simp [tracesToStef, writeResourceSpans_len, flattenSpans_length]
+  · simp [tracesToStef, writeResourceSpans_len, flattenSpans_length, sortTraces_count t]
 
-/-- the plain mode always returns -/
-theorem plain_mode_total (t : Traces) : ∃ recs, tracesToStef false t = some recs := by
-  simp [tracesToStef]
-
-/-- Content, plain mode, FULL statement (holds for every batch since repo commit 571960a, which
-    fixed the nested-map index of otlpval2tef.go; no side condition): the records are exactly the
+/-- Content, plain mode, FULL statement (every batch, no side condition): the records are exactly the
     spans in document order, each with its resource, scope, ids (as `idText`), name, kind, times,
     trace state, flags, attributes (including nested arrays and maps of any size),
     dropped-attributes counts, status, events and links. -/
-theorem span_content (t : Traces) :
-    tracesToStef false t = some ((flattenSpans t).map (expected false)) := by
-  simp only [tracesToStef]
-  simp only [Bool.false_eq_true, if_false]
+theorem span_content (t : Traces) : tracesToStef false t = (flattenSpans t).map (expected false) := by
+  simp only [tracesToStef, Bool.false_eq_true, if_false]
   rw [tracesToStef_records false t]
   rfl
 
-/-- Content, sorting mode: whenever it returns, the records are exactly the spans of the sorted and
-    merged batch (`sortTraces`), with span attributes in key order. -/
-theorem span_content_sorted (t t' : Traces) (h : sortTraces t = some t') :
-    tracesToStef true t = some ((flattenSpans t').map (expected true)) := by
-  simp only [tracesToStef, if_true, h]
-  rw [tracesToStef_records true t']
+/-- Content, sorting mode (every batch): the records are exactly the spans of the sorted and merged
+    batch (`sortTraces`), with span attributes in key order. -/
+theorem span_content_sorted (t : Traces) :
+    tracesToStef true t = (flattenSpans (sortTraces t)).map (expected true) := by
+  simp only [tracesToStef, if_true]
+  rw [tracesToStef_records true (sortTraces t)]
   rfl
 
 /-- The record has no place for Span.DroppedEventsCount / DroppedLinksCount: batches that differ
@@ -68,44 +52,33 @@ theorem id_text_injective (n : Nat) (a b : Str) (ha : idOk n a = true) (hb : idO
     (h : idText a = idText b) : a = b :=
   idText_inj n a b ha hb h
 
-/-- Sorting mode, full statement: the records are a permutation of the spans' records. FALSE as
-    written, twice: (1) resources that differ only in their dropped-attributes count are merged
-    (CmpResourceSpans does not look at it) ... -/
-def mergeWitness : Traces :=
-  { rss := [{ dropped := 0, scopes := [{ spans := [{ name := [97] }] }] },
-            { dropped := 1, scopes := [{ spans := [{ name := [98] }] }] }] }
+/-- The sorting mode merges exactly the resources and scopes a record cannot tell apart: its
+    comparison functions return 0 only for equal url / name / version / attributes / dropped count
+    (since repo commit 679d5d5: CmpVal compares every kind, the dropped-attributes count is compared;
+    before it resources differing only in that count were merged, and double / bytes / map values
+    made the sort panic). `b64`: the numbers in the attributes are 64-bit patterns. -/
+theorem merge_only_equal_resources (x y : ResourceSpans) (hx : x.attrs.b64 = true) (hy : y.attrs.b64 = true)
+    (h : cmpResourceSpans x y = 0) : x.url = y.url ∧ x.attrs = y.attrs ∧ x.dropped = y.dropped := by
+  have := cmpResourceSpans_faithful x y hx hy h
+  simpa [rKey] using this
 
-theorem sorted_same_multiset_false_merge :
-    ∃ recs, tracesToStef true mergeWitness = some recs ∧
-      ¬ recs.Perm ((flattenSpans mergeWitness).map (expected true)) := by
-  refine ⟨_, rfl, ?_⟩
-  decide
+theorem merge_only_equal_scopes (x y : ScopeSpans) (hx : x.attrs.b64 = true) (hy : y.attrs.b64 = true)
+    (h : cmpScopeSpans x y = 0) :
+    x.name = y.name ∧ x.ver = y.ver ∧ x.url = y.url ∧ x.attrs = y.attrs ∧ x.dropped = y.dropped := by
+  have := cmpScopeSpans_faithful x y hx hy h
+  simpa [sKey] using this
 
-/-- ... (2) the sorting mode panics when two resources with the same keys hold a double (bytes, map)
-    attribute value: otlptools.CmpVal has no case for these kinds. -/
-def panicWitness : Traces :=
-  { rss := [{ attrs := .cons [107] (.dbl 0x3ff0000000000000) .nil }, { attrs := .cons [107] (.dbl 0x4000000000000000) .nil }] }
-
-theorem sorted_mode_panics : tracesToStef true panicWitness = none := by decide
-
-/-- Sorting mode, for every batch in which the sorting mode only merges resources and scopes
-    that a record cannot tell apart (`ResMergeOK`, `ScopeMergeOK`: equal under the comparison implies
-    equal url/attributes/dropped count): whenever the converter returns, the records are a
+/-- Sorting mode, FULL statement: for every batch (whose resource and scope attribute numbers are
+    64-bit patterns - `keysB64`, a typing condition of the model, not an exclusion) the records are a
     permutation of the records of the spans (span attributes in key order). -/
-theorem sorted_same_multiset (t : Traces) (recs : List SpanRecord)
-    (hr : ResMergeOK t) (hs : ScopeMergeOK t) (h : tracesToStef true t = some recs) :
-    recs.Perm ((flattenSpans t).map (expected true)) := by
-  simp only [tracesToStef, if_true] at h
-  split at h
-  · simp at h
-  · rename_i t' ht
-    simp at h; subst h
-    rw [tracesToStef_records true t']
-    have p := sortTraces_triples t t' hr hs ht
-    show ((flattenSpans t').map fun x => expectedRecord x.1 x.2.1 x.2.2 true).Perm
-      ((flattenSpans t).map fun x => expectedRecord x.1 x.2.1 x.2.2 true)
-    rw [flattenSpans_expected, flattenSpans_expected, expected_via_triples, expected_via_triples]
-    exact List.Perm.map _ p
+theorem sorted_same_multiset (t : Traces) (hb : t.keysB64 = true) :
+    (tracesToStef true t).Perm ((flattenSpans t).map (expected true)) := by
+  rw [span_content_sorted]
+  have p := sortTraces_triples t hb
+  show ((flattenSpans (sortTraces t)).map fun x => expectedRecord x.1 x.2.1 x.2.2 true).Perm
+    ((flattenSpans t).map fun x => expectedRecord x.1 x.2.1 x.2.2 true)
+  rw [flattenSpans_expected, flattenSpans_expected, expected_via_triples, expected_via_triples]
+  exact List.Perm.map _ p
 
 /-! ### non-vacuity -/
 
@@ -128,16 +101,21 @@ def sample : Traces :=
             { res with scopes := [{ name := [115], spans := [sp4] }] }] }
 
 example : (flattenSpans sample).length = 4 ∧
-    tracesToStef false sample = some ((flattenSpans sample).map (expected false)) :=
+    tracesToStef false sample = (flattenSpans sample).map (expected false) :=
   ⟨by decide, span_content sample⟩
 
-/-- the hypotheses of `sorted_same_multiset` hold for `sample`, the sorting mode returns, and it does
-    reorder and merge (its output differs from the plain mode's) -/
-example : ResMergeOK sample ∧ ScopeMergeOK sample ∧ (∃ recs, tracesToStef true sample = some recs) ∧
-    tracesToStef true sample ≠ tracesToStef false sample := by
-  refine ⟨?_, ?_, ⟨_, rfl⟩, by decide⟩
-  · unfold ResMergeOK; decide
-  · unfold ScopeMergeOK; decide
+/-- `sample` satisfies the typing condition, and the sorting mode does reorder and merge on it (its
+    output differs from the plain mode's, the two equal resources become one) -/
+example : sample.keysB64 = true ∧ tracesToStef true sample ≠ tracesToStef false sample ∧
+    (sortTraces sample).rss.length = 2 := by decide
+
+/-- resources that differ only in their dropped-attributes count, or in a double attribute value,
+    are kept apart (they were merged / made the sort panic before 679d5d5) -/
+example :
+    let t : Traces := { rss := [{ dropped := 0, attrs := .cons [107] (.dbl 0x3ff0000000000000) .nil, scopes := [{ spans := [{ name := [97] }] }] },
+                                { dropped := 1, attrs := .cons [107] (.dbl 0x3ff0000000000000) .nil, scopes := [{ spans := [{ name := [98] }] }] },
+                                { dropped := 0, attrs := .cons [107] (.dbl 0x4000000000000000) .nil, scopes := [{ spans := [{ name := [99] }] }] }] }
+    (sortTraces t).rss.length = 3 := by decide
 
 example : idOk 16 (List.replicate 16 7) = true ∧ idText (List.replicate 8 0) = [] := by decide
 
